@@ -714,6 +714,9 @@ def read_set_sites(src: Path) -> list[dict]:
                 fname = n.func.id if isinstance(n.func, ast.Name) else n.func.attr if isinstance(n.func, ast.Attribute) else None
                 if fname in ("set", "frozenset"):
                     continue
+                if fname == "pop" and isinstance(n.func, ast.Attribute) and not n.args and not n.keywords:
+                    add(n, n.func.value, "call:pop")        # set.pop(): "an arbitrary element" = the first in hash order
+                    continue
                 if fname in ORDER_FREE_CALLS:
                     for a in n.args[:1]:
                         add(n, a, "order_free:" + fname)
@@ -735,6 +738,125 @@ def read_set_sites(src: Path) -> list[dict]:
         else:
             s["cls"] = "USeedOrdered"
     return sites
+
+
+# ----------------------------------------------------------------------------- where do the elements of an iterated set come from?
+# (strengthening round 3)  The classification of an iteration site rests on what the set can hold (`set[int]` iterates in a
+# seed-independent order only while every element IS an int).  For every set that an iteration site mentions, list the code paths that
+# put elements into it: `.add(x)` / `.update(xs)` / `|=` / a non-empty assignment — and, when such a statement sits in a method that
+# inserts one of its own parameters (`def add_int(self, integer): self.ints.add(integer)`), every CALL of that method instead.
+# The pool of c12.py must reach each of them (measured by line tracing) in a compile whose iteration sees >= 2 elements.
+
+def read_set_insertions(src: Path, sites: list[dict], attrs: dict) -> list[dict]:
+    wanted = {a for s in sites for a in attrs if re.search(r"\b%s\b" % re.escape(a), s["expr"])}
+    local_wanted = {}
+
+    def set_names(e):
+        """local names that ARE the iterated set (the whole expression or an operand of a set operator), not receivers of an attribute"""
+        if isinstance(e, ast.Name):
+            return {e.id}
+        if isinstance(e, ast.BinOp) and isinstance(e.op, (ast.BitOr, ast.BitAnd, ast.Sub, ast.BitXor)):
+            return set_names(e.left) | set_names(e.right)
+        return set()
+    for s in sites:
+        for nm in set_names(ast.parse(s["expr"], mode="eval").body):
+            local_wanted.setdefault((s["file"], s["func"]), set()).add(nm)
+    direct, wrappers = [], {}
+    trees = {p.relative_to(src).as_posix(): parse(p) for p in sorted(src.rglob("*.py"))}
+    # a local that is just another name of a set attribute (`valid_condition_kinds = Header().conditions`): follow the attribute
+    for (rel, fname), names in list(local_wanted.items()):
+        for n in ast.walk(trees[rel]):
+            if isinstance(n, (ast.FunctionDef, ast.AsyncFunctionDef)) and n.name == fname:
+                for a in ast.walk(n):
+                    if isinstance(a, ast.Assign) and len(a.targets) == 1 and isinstance(a.targets[0], ast.Name) and a.targets[0].id in names \
+                            and isinstance(a.value, ast.Attribute) and a.value.attr in attrs:
+                        wanted.add(a.value.attr)
+                        names.discard(a.targets[0].id)
+    for rel, tree in trees.items():
+        parents = {}
+        for n in ast.walk(tree):
+            for ch in ast.iter_child_nodes(n):
+                parents[ch] = n
+
+        def ctx(n):
+            fn, cls = None, None
+            while n in parents:
+                n = parents[n]
+                if fn is None and isinstance(n, (ast.FunctionDef, ast.AsyncFunctionDef)):
+                    fn = n
+                if cls is None and isinstance(n, ast.ClassDef):
+                    cls = n.name
+            return fn, cls
+
+        def target_set(e, fn, cls):
+            """name of the wanted set `e` denotes, or None"""
+            if isinstance(e, ast.Attribute) and e.attr in wanted:
+                owner = attrs[e.attr][1]
+                recv = ast.unparse(e.value)
+                if recv in ("self", "cls"):
+                    return f"{owner}.{e.attr}" if cls == owner else None
+                ok = OWNER_RECEIVERS.get(owner)
+                return f"{owner}.{e.attr}" if ok is None or ok(recv) else None
+            if isinstance(e, ast.Name) and fn is not None and e.id in local_wanted.get((rel, fn.name), ()):
+                return f"{rel}:{fn.name}:{e.id}"
+            return None
+
+        for n in ast.walk(tree):
+            ins = None
+            if isinstance(n, ast.Call) and isinstance(n.func, ast.Attribute) and n.func.attr in ("add", "update") and n.args:
+                fn, cls = ctx(n)
+                st = target_set(n.func.value, fn, cls)
+                if st:
+                    ins = (st, n, n.args[0], fn, cls)
+            elif isinstance(n, ast.AugAssign) and isinstance(n.op, ast.BitOr):
+                fn, cls = ctx(n)
+                st = target_set(n.target, fn, cls)
+                if st:
+                    ins = (st, n, n.value, fn, cls)
+            elif isinstance(n, (ast.Assign, ast.AnnAssign)) and getattr(n, "value", None) is not None:
+                fn, cls = ctx(n)
+                for tg in (n.targets if isinstance(n, ast.Assign) else [n.target]):
+                    st = target_set(tg, fn, cls)
+                    v = n.value
+                    empty = (isinstance(v, ast.Call) and isinstance(v.func, ast.Name) and v.func.id in ("set", "frozenset") and not v.args) \
+                        or (isinstance(v, ast.Set) and not v.elts)
+                    if st and not empty:
+                        ins = (st, n, v, fn, cls)
+            if ins is None:
+                continue
+            st, node, val, fn, cls = ins
+            params = [a.arg for a in fn.args.args] if fn is not None else []
+            if isinstance(val, ast.Name) and val.id in params and cls is not None and val.id != "self":
+                wrappers.setdefault(fn.name, []).append((st, rel, cls, params.index(val.id), val.id))
+                continue
+            direct.append(dict(set=st, file=rel, func=fn.name if fn is not None else "<module>", line=node.lineno, end_line=node.end_lineno,
+                               text=ast.unparse(node)[:90], value=ast.unparse(val)[:60], via="direct"))
+    out = list(direct)
+    for rel, tree in trees.items():
+        parents = {}
+        for n in ast.walk(tree):
+            for ch in ast.iter_child_nodes(n):
+                parents[ch] = n
+        for n in ast.walk(tree):
+            if isinstance(n, ast.Call) and isinstance(n.func, ast.Attribute) and n.func.attr in wrappers:
+                q = n
+                fn = None
+                while q in parents:
+                    q = parents[q]
+                    if isinstance(q, (ast.FunctionDef, ast.AsyncFunctionDef)):
+                        fn = q
+                        break
+                for st, wrel, wcls, pidx, pname in wrappers[n.func.attr]:
+                    arg = None
+                    if len(n.args) >= pidx:            # parameter index counts `self`
+                        arg = n.args[pidx - 1] if pidx >= 1 and len(n.args) >= pidx else None
+                    for kw in n.keywords:
+                        if kw.arg == pname:
+                            arg = kw.value
+                    out.append(dict(set=st, file=rel, func=fn.name if fn is not None else "<module>", line=n.lineno, end_line=n.end_lineno,
+                                    text=ast.unparse(n)[:90], value=ast.unparse(arg)[:60] if arg is not None else "?", via=f"{wcls}.{n.func.attr}"))
+    out.sort(key=lambda d: (d["set"], d["file"], d["line"]))
+    return out
 
 
 # ----------------------------------------------------------------------------- all together
@@ -772,8 +894,10 @@ def translate(repo: Path) -> dict:
     pyjmc = w.function(find_func(pcls, "__init__"), {"self.__build": pb})
 
     fields = [("HF", f) for f in hdr["fields"]] + [("DF", a) for a in sorted(assigned)] + ["PyEnv", "PyPending"]
+    sites_, attrs_ = read_set_sites(src), set_attrs(src)
     return dict(header=hdr, cert=cert, pyenv=pyenv, fields=fields, header_only=header_only, header_only_why=why,
-                entries=dict(CLI=cli, TEST=test, PYJMC=pyjmc), set_sites=read_set_sites(src), set_attrs=set_attrs(src),
+                entries=dict(CLI=cli, TEST=test, PYJMC=pyjmc), set_sites=sites_, set_attrs=attrs_,
+                set_insertions=read_set_insertions(src, sites_, attrs_),
                 container_fields=[f for f in hdr["cleared"] if hdr["resets"][f]["mutable"]])
 
 
@@ -827,3 +951,5 @@ if __name__ == "__main__":
     print("(* header_only:", tt["header_only"], tt["header_only_why"][:5], "*)")
     for s in tt["set_sites"]:
         print("(*", s, "*)")
+    for s in tt["set_insertions"]:
+        print("(* insertion", s, "*)")
